@@ -89,10 +89,11 @@ impl<T: Snap + Copy> Snap for Cell<T> {
 }
 impl<T: Snap> Snap for RefCell<T> {
     fn snap(&self) -> Obs {
-        let blocked = self.try_borrow_mut().is_err();
+        // 0 = not borrowed, 2 = mutably borrowed (leaked guard), 3 = immutably borrowed (leaked guard)
+        let state = if self.try_borrow_mut().is_ok() { 0 } else if self.try_borrow().is_ok() { 3 } else { 2 };
         // SAFETY: single-threaded harness; a leaked borrow flag has no live guard
         let inner = unsafe { (*self.as_ptr()).snap() };
-        gate(if blocked { 2 } else { 0 }, Some(inner))
+        gate(state, Some(inner))
     }
 }
 // reference wrappers: &mut T (all four traits through the blanket impls), &RefCell / &Mutex / &RwLock (TreeDeserialize
